@@ -6,7 +6,7 @@ sys.path.insert(0, os.path.join(os.path.dirname(os.path.abspath(__file__)), ".."
 import engine_check  # noqa: E402
 import diff_engine  # noqa: E402
 
-LEAN_MODULES = ["KmipModel.Props.C13"]   # Drivers/WellTyped.lean imports it
+LEAN_MODULES = ["KmipModel.Props.C13", "KmipModel.Props.C13Decode"]   # Drivers/WellTyped.lean, Drivers/Decode.lean
 LEANCHECKER = True
 RULE = ("grid: operation x stored object type (8 kinds incl. RSA pair, split key) x lifecycle state x KMIP version x "
         "parameter menu (valid, absent-optional, inapplicable-to-type, unknown / x- attribute name, every attribute "
@@ -317,6 +317,11 @@ def run(ctx):
     dom, outside = theorem_domain(ctx, grid)
     ctx.coverage["theorem_domain"] = dom
     ctx.coverage["items_outside_theorem_domain_samples"] = outside
+    # M14: the request decoder model against RequestMessage.read (verdict, decoded request, well-typedness of
+    # everything decoded) + the property through the real decoder (no General Failure for a decoded request)
+    from decode_check import run_decode
+    ctx.coverage["decode"] = run_decode(ctx)
+    ctx.coverage["evaluations"] += int((ctx.coverage["decode"] or {}).get("frames", 0))
     if divs:
         d = divs[0]
         sig = "correspondence:engine-model"
@@ -335,6 +340,9 @@ def search(ctx, broken):
 
 def replay(ctx, rep):
     r = rep.get("replay", rep)
+    if r.get("kind") == "frame":
+        import decode_check
+        return decode_check.replay_frame(ctx, rep)
     lines = engine_check.with_dumps(r["lines"])
     outs = diff_engine.run_impl(lines, scripted=False, keep_internal=True)
     bad = mon_c13(lines, outs)
